@@ -24,8 +24,9 @@ RULES = {
     "R7": "the screen file the commands pass along is written and read back without transformation (writer/reader table of Screen.save_h5 / load_h5)",
     "R8": "the derived screen attributes this property's code relies on (is_observed, n_plates, unique_plate_ids, size) have their documented definitions in ScreenBase and every override",
     "R9": "the view algebra this property's code relies on: plates = one view per unique plate id, get_plate = the rows with that id, subset_(un)observed, combine / concat as unions over one parent (C14.R3 run here)",
+    "R10": "the reveal command reveals what was asked: on every path main() saves reveal_plates(loaded screen, requested ids) to the output; nothing else writes the output",
 }
-MIN = {"R1": 5, "R2": 3, "R3": 2, "R4": 3, "R5": 3, "R6": 1, "R7": 16, "R8": 4, "R9": 8}
+MIN = {"R1": 5, "R2": 3, "R3": 2, "R4": 3, "R5": 3, "R6": 1, "R7": 16, "R8": 4, "R9": 8, "R10": 1}
 TRUSTED = ["numpy boolean indexing / np.isin semantics", "python ast"]
 TECHNIQUE = "dominance of refusal guards on the CFG, relational normal form of the mask expression, who-may-write scan"
 LEVEL_TEXT = ("Atomicity is an invariant re-established by the constructor at every operation (each operation builds its "
@@ -480,7 +481,49 @@ def r_views(ctx):
     ctx.borrow(C14.r3, "R9")
 
 
-RULE_FUNCS = [r1, r2, r3, r4, r5, r6, r7, r_derived, r_views]
+def r10(ctx):
+    """cli.reveal_plate.main is the step of the history: load, reveal the requested plates, save.  The saved screen must be the result of
+    reveal_plates on the loaded screen with the ids from the command line, on every path; a shortcut that writes the output some other way
+    (copying the input when the request `looks` already applied) leaves requested plates hidden."""
+    f = ctx.fn("cli.reveal_plate.main")
+    env = {k: v for k, v in single_defs(f.node).items() if k != "args"}
+    rv = [c for c in calls(f.node) if call_name(c) == "reveal_plates"]
+    ctx.need(len(rv) >= 1, f"{f.site()}: no call of reveal_plates")
+    others = []
+    for c in calls(f.node):
+        if c in rv or attr_tail(c) == "save_h5":
+            continue
+        if any("args.output" in U(a) for a in list(c.args) + [k.value for k in c.keywords]):
+            others.append(U(c)[:70])
+    if others:
+        ctx.bad("R10", f"{f.site()}::output-only-from-reveal", f"the output file is also produced by {others}: on that path the requested plates are not revealed "
+                f"(or the file is not what reveal_plates returned)")
+        return
+    ctx.need(len(rv) == 1, f"{f.site()}: {len(rv)} calls of reveal_plates")
+    c = rv[0]
+    src = inline(c.args[0], env) if c.args else None
+    ids = c.args[1] if len(c.args) > 1 else kwargs(c).get("plate_ids")
+    ids_i = inline(ids, env) if ids is not None else None
+    ok_args = src is not None and U(src).replace(" ", "") == "Screen.load_h5(args.screen)" and ids_i is not None and "args.plate_id" in U(ids_i)
+    saves = [x for x in calls(f.node) if attr_tail(x) == "save_h5" and x.args and U(x.args[0]) == "args.output"]
+    par = enclosing_map(f.node)
+    top = False
+    saved_ok = False
+    if len(saves) == 1:
+        recv = inline(saves[0].func.value, env)
+        saved_ok = recv is c or U(recv) in (U(c), U(inline(c, env)))
+        st = par.get(saves[0])
+        top = isinstance(st, ast.Expr) and par.get(st) is f.node
+    early = [r for r in walk_own(f.node) if isinstance(r, ast.Return)]
+    if not (top and not early) and ok_args and saved_ok:
+        raise AnalysisError(f"{f.site()}: the save of the revealed screen is conditional / preceded by an early return; whether every path reveals is not decided here")
+    ctx.check("R10", f"{f.site()}::saves-the-revealed-screen", ok_args and saved_ok and top and not early,
+              "main saves reveal_plates(Screen.load_h5(args.screen), args.plate_id) to args.output, unconditionally",
+              f"main does not save reveal_plates(loaded screen, requested ids): reveal arguments ({U(src) if src is not None else None}, {U(ids_i) if ids_i is not None else None}), "
+              f"{len(saves)} save(s) to args.output")
+
+
+RULE_FUNCS = [r1, r2, r3, r4, r5, r6, r7, r_derived, r_views, r10]
 
 
 def _rep(a, b):
